@@ -218,6 +218,18 @@ def run(ctx):
             continue
         ctx.validated()
     run_raw_whitespace(ctx, jinja2)
+    run_autoescape_blocks(ctx, jinja2)
+    # configuration axis "bytecode cache shared between environments": re-observes the recorded finding
+    for src, kw2 in (("a\nb\n", dict(newline_sequence="\r\n", keep_trailing_newline=True)), ("x\r\ny\n", dict(newline_sequence="\r")),
+                     ("p\n", dict(keep_trailing_newline=True))):
+        got, want = L.probe_shared_bytecode_cache(jinja2, {}, kw2, src)
+        case = {"kind": "shared-bytecode-cache", "src": src, "second_environment": kw2}
+        ctx.case(sample=case, key=("bcc", src))
+        ctx.count("shared_bytecode_cache_probe")
+        if got != want:
+            ctx.reject(case, "second environment on the shared bytecode cache renders %r, without the cache %r" % (got, want), KNOWN_BCC)
+        else:
+            ctx.validated()
 
 
 def run_raw_whitespace(ctx, jinja2):
@@ -250,6 +262,58 @@ def run_raw_whitespace(ctx, jinja2):
         got = real_render(jinja2, c, src)
         if got != "D " + want:
             ctx.reject(case, "raw block: render %r, expected %r" % (got, want), "C11:rawws:%s:%s" % (k, c.key()))
+        else:
+            ctx.validated()
+
+
+KNOWN_BCC = "C11:shared-bytecode-cache-ignores-newline-options"
+KNOWN_FINALIZE = "C11:finalize-x-runtime-autoescape-template-data"
+
+
+def run_autoescape_blocks(ctx, jinja2):
+    """plain text, raw blocks and comments inside {% autoescape <flag> %} blocks: the flag a runtime variable
+    (true / false), a constant, or an expression; the environment with autoescape off / on / a selector; with
+    and without a finalize hook (constant-returning, identity-like, context-aware); content with < > & " '.
+    Template data is never escaped and never finalized: the output is the text itself (newline rules as
+    everywhere), for either value of the flag."""
+    def fin_ctx(ctx_, v):
+        return "F"
+    fin_ctx = jinja2.pass_context(fin_ctx)
+    env_opts = [("plain", {}), ("autoescape_on", {"autoescape": True}), ("selector", {"autoescape": jinja2.select_autoescape(default_for_string=True)}),
+                ("finalize_const", {"finalize": lambda v: "X"}), ("finalize_none", {"finalize": lambda v: "" if v is None else v}),
+                ("finalize_ctx", {"finalize": fin_ctx}), ("finalize_const+autoescape", {"finalize": lambda v: "X", "autoescape": True})]
+    flags = [("f", True), ("f", False), ("not f", True), ("f and g", True), ("true", None), ("false", None), ("f|default(true)", False)]
+    pool = ["a", " ", "\n", "<", ">", "&", '"', "'", "<b>", "&amp;", "\r\n", "}", "%", "x y"]
+    envs = {}
+    for j in range(ctx.size(2500, 25000)):
+        oname, okw = ctx.rng.choice(env_opts)
+        nl, keep = ctx.rng.choice(NLS), ctx.rng.random() < 0.5
+        ek = (oname, nl, keep)
+        if ek not in envs:
+            envs[ek] = jinja2.Environment(newline_sequence=nl, keep_trailing_newline=keep, **okw)
+        env = envs[ek]
+        flag, fval = ctx.rng.choice(flags)
+        txt = lambda n: "".join(ctx.rng.choice(pool) for _ in range(ctx.rng.randint(0, n)))
+        pre, t1, body, t2, post = txt(3), txt(4), txt(5), txt(3), txt(3)
+        if any(d in s for s in (pre, t1, body, t2, post) for d in ("{{", "{%", "{#")):
+            continue
+        inner = t1 + "{% raw %}" + body + "{% endraw %}" + t2 + ctx.rng.choice(["", "{# c < #}"])
+        nested = ctx.rng.random() < 0.2
+        if nested:
+            inner = "{% autoescape g %}" + inner + "{% endautoescape %}"
+        src = pre + "{% autoescape " + flag + " %}" + inner + "{% endautoescape %}" + post
+        want = spec_plain(pre, nl, True) + spec_plain(t1, nl, True) + spec_plain(body, nl, True) + spec_plain(t2, nl, True) + spec_plain(post, nl, keep)
+        case = {"kind": "autoescape-block", "env": oname, "newline_sequence": nl, "keep_trailing_newline": keep, "flag": flag, "f": fval, "src": src, "want": want}
+        ctx.case(sample=case if j < 3 else None, key=("aeblock", oname, flag, fval, src))
+        ctx.count("autoescape_block_" + oname)
+        try:
+            got = "D " + env.from_string(src).render(f=fval, g=bool(ctx.rng.getrandbits(1)))
+        except Exception as e:
+            got = "X:" + type(e).__name__ + ":" + str(e)[:60]
+        if got != "D " + want:
+            runtime_flag = flag not in ("true", "false") or nested
+            sig = KNOWN_FINALIZE if (oname.startswith("finalize") and runtime_flag) else "C11:aeblock:%s:%s:%r" % (oname, flag, src)
+            ctx.reject(case, "text / raw block inside {%% autoescape %s %%} (%s): render %r, expected %r" % (flag, oname, got, want), sig)
         else:
             ctx.validated()
 
@@ -313,6 +377,22 @@ def replay(ctx, data):
     if data.get("kind") != "failing-input" or case is None:
         print("replay: this file names a broken theorem/correspondence, not an input:", data.get("broken"))
         return run(ctx)
+    if case.get("kind") == "autoescape-block":
+        okw = {"plain": {}, "autoescape_on": {"autoescape": True}, "selector": {"autoescape": jinja2.select_autoescape(default_for_string=True)},
+               "finalize_const": {"finalize": lambda v: "X"}, "finalize_none": {"finalize": lambda v: "" if v is None else v},
+               "finalize_ctx": {"finalize": jinja2.pass_context(lambda c_, v: "F")},
+               "finalize_const+autoescape": {"finalize": lambda v: "X", "autoescape": True}}[case["env"]]
+        env = jinja2.Environment(newline_sequence=case["newline_sequence"], keep_trailing_newline=case["keep_trailing_newline"], **okw)
+        outs = []
+        for g in (True, False):
+            try:
+                outs.append("D " + env.from_string(case["src"]).render(f=case["f"], g=g))
+            except Exception as e:
+                outs.append("X:" + type(e).__name__)
+        print("source:", repr(case["src"]), "env:", case["env"], "f =", case["f"], "\nrenders:", outs, "\nexpected:", repr(case["want"]))
+        if any(o != "D " + case["want"] for o in outs):
+            ctx.reject(case, "render %r, expected %r" % (outs, case["want"]), data.get("signature"))
+        return
     c = L.Cfg.from_desc(case["cfg"])
     src = case["src"]
     print("source:", repr(src), "cfg:", case["cfg"])
